@@ -18,7 +18,7 @@ PROP = "C13"
 BUDGET = {"quick": 300, "thorough": 3000}
 META = {
     "rule": "matrices with designed singular values spread over 1-3 charges (five spectra menus + a tie menu) x 4 direction patterns x even / odd total charge x abelian / fermionic "
-    "(pending signs) x real / complex x block shapes tall / wide / square; for each: six cutoff modes x cutoffs at half the first threshold, every midpoint between consecutive decision "
+    "(pending signs) x real / complex x block shapes tall / wide / square, also with the row or column index already fused (matrices that come from a fuse); for each: six cutoff modes x cutoffs at half the first threshold, every midpoint between consecutive decision "
     "thresholds and 1.5x / 10x beyond the last x max_bond in {-1, 1..rank+1}; no-cutoff runs for every max_bond; absorb in {None,-1,0,1,'left','both','right'}. "
     "non-trivial = run in which at least one value is discarded and at least one kept",
     "bounds": {"quick": "all five symmetries, alphabets' first three column charges", "thorough": "same + permuted charge assignment of the spectra"},
@@ -133,12 +133,17 @@ def product(U, s, VH, frame, dtype):
     return embed(sr.tensordot(a, VH, 1), frame, dtype=dtype)
 
 
-def matrix_failures(d, ties=False, st=None):
+def matrix_failures(d, ties=False, st=None, prefuse=None):
     import autoray as ar
     import symmray as sr
 
     out = []
     x = build(d)
+    if prefuse == "col":
+        # same values, but the column index is a fused index (carries sub-index info of a singleton)
+        x = x.expand_dims(2).fuse((1, 2))
+    elif prefuse == "row":
+        x = x.expand_dims(0).fuse((0, 1))
     X = embed(x)
     fr = frame_of(x)
     spec = dict(d["fill"][2])
@@ -301,15 +306,16 @@ def run_group(ctx, group):
     for i, (sname, d) in enumerate(cases(ctx, sym, ferm)):
         if i % nch != k:
             continue
-        fails, nt = matrix_failures(d, ties=(sname == "ties"), st=st)
-        st.states += 1
-        st.nontrivial += nt
-        for kd, det in fails:
-            st.violation(f"C13/{kd}", {"x": d, "ties": sname == "ties"}, det)
+        for prefuse in (None, ("col", "row")[i % 2]) if sname in ("two", "three") else (None,):
+            fails, nt = matrix_failures(d, ties=(sname == "ties"), st=st, prefuse=prefuse)
+            st.states += 1
+            st.nontrivial += nt
+            for kd, det in fails:
+                st.violation(f"C13/{kd}", {"x": d, "ties": sname == "ties", "prefuse": prefuse}, det)
         if not st.samples:
             st.sample({"matrix": describe(build(d)), "designed_singular_values": repr(d["fill"][2])})
     return st
 
 
 def replay(ctx, case):
-    return [(f"C13/{kd}", det) for kd, det in matrix_failures(case["x"], ties=case["ties"])[0]]
+    return [(f"C13/{kd}", det) for kd, det in matrix_failures(case["x"], ties=case["ties"], prefuse=case.get("prefuse"))[0]]
